@@ -28,6 +28,8 @@ enum Job {
     C04Families,
     C02PromoThenSpecial,
     Tree { start: usize, synth_stream: Option<u64> },
+    /// every legal position with the two kings and one more piece (exhaustive when stride = 1)
+    ThreePiece { wk: u8, stride: usize },
 }
 
 pub fn run(prop: Prop, tier: Tier, seed: u64) -> i32 {
@@ -117,6 +119,11 @@ pub fn run(prop: Prop, tier: Tier, seed: u64) -> i32 {
             jobs.push(Job::Tree { start: 0, synth_stream: Some(600_000 + i) });
         }
     }
+    if matches!(prop, Prop::C01 | Prop::C02 | Prop::C05 | Prop::C06) {
+        for wk in 0..64u8 {
+            jobs.push(Job::ThreePiece { wk, stride: tier.pick(8, 1) });
+        }
+    }
     let results = par::par_map(jobs.len(), |i| {
         let mut acc = Acc::new();
         run_job(&jobs[i], prop, seed, &starts, &h, &mut acc);
@@ -126,7 +133,8 @@ pub fn run(prop: Prop, tier: Tier, seed: u64) -> i32 {
         run.acc.merge(a, &["max_capture_chain", "max_walk_plies"]);
     }
     if matches!(prop, Prop::C01 | Prop::C02 | Prop::C05) {
-        run.set("exhaustive_families", json!(["castling: 4 types x enemy king square x (none | one extra enemy piece of 5 kinds on any square), every legal member"]));
+        run.set("exhaustive_families", json!(["castling: 4 types x enemy king square x (none | one extra enemy piece of 5 kinds on any square), every legal member",
+            if tier == Tier::Thorough { "all legal positions with two kings and one more piece (5 kinds x 2 colours x 2 sides to move, castling right set whenever king and rook are at home)" } else { "two kings + one piece: every 8th member (complete in the thorough tier)" }]));
     }
     if prop == Prop::C06 {
         run.set("exhaustive_families", json!(["king square x enemy attacker (5 kinds) x attacker square x (no blocker | blocker of 4 kinds on every between-square or 3 off-ray squares), both colours", "all ordered pairs of king squares"]));
@@ -241,6 +249,57 @@ pub fn run_job(job: &Job, prop: Prop, seed: u64, starts: &[Pos], h: &ZobristHash
         Job::C05Constants => c05_constants(h, acc),
         Job::C04Families => c04_families(h, acc),
         Job::C02PromoThenSpecial => promo_then_special(prop, h, acc),
+        Job::ThreePiece { wk, stride } => {
+            let mut rng = Rng::stream(seed, 0x3333 + *wk as u64);
+            let mut n = 0usize;
+            let offset = (seed as usize) % *stride;
+            for bk in 0..64u8 {
+                if bk == *wk {
+                    continue;
+                }
+                for x in 0..64u8 {
+                    if x == *wk || x == bk {
+                        continue;
+                    }
+                    for (ci, c) in [Color::White, Color::Black].iter().enumerate() {
+                        for (ki, k) in [Kind::Pawn, Kind::Knight, Kind::Bishop, Kind::Rook, Kind::Queen].iter().enumerate() {
+                            for stm in [Color::White, Color::Black] {
+                                n += 1;
+                                if n % *stride != offset {
+                                    continue;
+                                }
+                                let mut p = Pos::empty();
+                                p.sq[*wk as usize] = Some((Color::White, Kind::King));
+                                p.sq[bk as usize] = Some((Color::Black, Kind::King));
+                                p.sq[x as usize] = Some((*c, *k));
+                                p.stm = stm;
+                                let _ = (ci, ki);
+                                // with the castling right whenever king and rook stand at home
+                                if *k == Kind::Rook {
+                                    if *c == Color::White && *wk == 4 {
+                                        p.castle[WK] = x == 7;
+                                        p.castle[WQ] = x == 0;
+                                    }
+                                    if *c == Color::Black && bk == 60 {
+                                        p.castle[BK] = x == 63;
+                                        p.castle[BQ] = x == 56;
+                                    }
+                                }
+                                if !is_legal_position(&p) {
+                                    continue;
+                                }
+                                acc.count("three_piece_positions", 1);
+                                if prop == Prop::C06 {
+                                    c06_placement(&p, acc, false);
+                                } else {
+                                    position_check_pub(&p, h, prop, &mut rng, acc);
+                                }
+                            }
+                        }
+                    }
+                }
+            }
+        }
         Job::Tree { start, synth_stream } => {
             let p = match synth_stream {
                 Some(st) => {
